@@ -150,6 +150,7 @@ func genMux(r *rng.R, tier string) *muxCase {
 		// not a whole number of ns (it never cuts parts; the leading video decides)
 		c.A2Rate = []int64{48000, 44100, 22050, 88200, 32000}[r.Intn(5)]
 		c.A2Batch = 1 + r.Intn(5)
+		c.AudioFirst = r.Bool(1, 2) // Tracks = [audio, video]: the rendition's stream is declared first
 	}
 
 	// first dts
@@ -242,6 +243,30 @@ func genMux(r *rng.R, tier string) *muxCase {
 			since++
 		}
 		c.Flags = append(c.Flags, fl)
+	}
+	// history shape "late first non-final part": several GOPs shorter than a part, each closing a
+	// segment that holds only a final part (PART-TARGET settles on that short duration), then a
+	// long GOP whose first full part is the stream's first non-final part: PART-TARGET changes at
+	// a part close, with an OnEncodeError report
+	if video && tc.alt == nil && c.effPartMin() > 2*sd && r.Bool(1, 5) {
+		g := r.Range(1, (c.effPartMin()-1)/sd)
+		if g > 60 {
+			g = r.Range(1, 60)
+		}
+		c.SegMin = r.Range(1, g*sd)
+		short := int(r.Range(2, 6))
+		long := int(mini(int64(n), 4*partSamples+r.Range(3, 40)))
+		c.Flags, c.Deltas = nil, nil
+		for i := 0; i < short*int(g)+long; i++ {
+			fl := 0
+			if i%int(g) == 0 && i <= short*int(g) {
+				fl = 1
+			}
+			c.Flags = append(c.Flags, fl)
+			c.Deltas = append(c.Deltas, tc.t)
+		}
+		n = len(c.Flags)
+		c.Shape = "late-first-non-final"
 	}
 	// AAC-led: several access units per WriteMPEG4Audio call (the muxer derives the timestamps
 	// of the 2nd..nth unit of a call itself); the input cadence stays a constant 1024 samples
@@ -366,52 +391,69 @@ func oracle(c *muxCase, obs *muxObs, side bool) []finding {
 	}
 	pm := c.effPartMin()
 	var D int64 = -1
-	var prev *viewObs
-	var prevErrs int64
-	for i := range obs.playlists {
-		v := &obs.playlists[i]
-		nf := nonFinal(v.PL)
-		for _, d := range nf {
-			if D < 0 {
-				D = d
+	// every stream's playlists: a rendition's parts are cut at the leading track's instants, so
+	// they have the same D and its playlists announce the same PART-TARGET
+	report0 := report
+	for si, seq := range obs.streams {
+		var prev *viewObs
+		var prevErrs int64
+		for i := range seq.Views {
+			v := &seq.Views[i]
+			si, seq, i := si, seq, i
+			report := func(check, what string, at int64) {
+				if si > 0 {
+					what = "rendition " + seq.ID + ": " + what
+				}
+				if seq.InCallback[i] {
+					// requested from inside OnEncodeError, during the call that follows write v.K
+					what = "playlist served while OnEncodeError was running: " + what
+					at = int64(len(c.Flags))
+				}
+				report0(check, what, at)
 			}
-			if d != D {
-				report("same-duration", fmt.Sprintf("after write %d the playlist lists non-final parts of %d0 us and %d0 us", v.K, D, d), v.K)
+			nf := nonFinal(v.PL)
+			for _, d := range nf {
+				if D < 0 {
+					D = d
+				}
+				if d != D {
+					report("same-duration", fmt.Sprintf("after write %d the playlist lists non-final parts of %d0 us and %d0 us", v.K, D, d), v.K)
+				}
+				dns := d * 10000
+				if v.PL.PartTargetNS < 0 {
+					report("part-inf-missing", fmt.Sprintf("after write %d the playlist has no EXT-X-PART-INF", v.K), v.K)
+					continue
+				}
+				if dns > v.PL.PartTargetNS {
+					report("above-part-target", fmt.Sprintf("after write %d a non-final part of %d ns exceeds PART-TARGET %d ns", v.K, dns, v.PL.PartTargetNS), v.K)
+				}
+				if 85*v.PL.PartTargetNS > 100*(dns+5000) {
+					report("85-percent", fmt.Sprintf("after write %d a non-final part of %d ns is below 85%% of PART-TARGET %d ns", v.K, dns, v.PL.PartTargetNS), v.K)
+				}
+				if dns+5000 < pm {
+					report("below-part-min", fmt.Sprintf("after write %d a non-final part of %d ns is shorter than PartMinDuration %d ns", v.K, dns, pm), v.K)
+				}
+				// D < 2*max(pm, sd) + sd with sd = T/rate seconds, compared in units of 1/rate ns
+				sdn := c.T * 1000000000
+				mx := pm * c.Rate
+				if sdn > mx {
+					mx = sdn
+				}
+				if (dns-5000)*c.Rate >= 2*mx+sdn {
+					report("upper-bound", fmt.Sprintf("after write %d a non-final part of %d ns is not below 2*max(PartMinDuration, sample duration) + sample duration", v.K, dns), v.K)
+				}
 			}
-			dns := d * 10000
-			if v.PL.PartTargetNS < 0 {
-				report("part-inf-missing", fmt.Sprintf("after write %d the playlist has no EXT-X-PART-INF", v.K), v.K)
-				continue
+			if prev != nil && len(nf) > 0 && len(nonFinal(prev.PL)) > 0 {
+				if v.PL.PartTargetNS != prev.PL.PartTargetNS {
+					report("part-target-changed", fmt.Sprintf("PART-TARGET changed from %d ns (after write %d) to %d ns (after write %d), both playlists list a non-final part",
+						prev.PL.PartTargetNS, prev.K, v.PL.PartTargetNS, v.K), v.K)
+				} else if seq.ErrsAt[i] != prevErrs {
+					report("part-target-changed", fmt.Sprintf("OnEncodeError reported a part duration change between writes %d and %d, both playlists list a non-final part", prev.K, v.K), v.K)
+				}
 			}
-			if dns > v.PL.PartTargetNS {
-				report("above-part-target", fmt.Sprintf("after write %d a non-final part of %d ns exceeds PART-TARGET %d ns", v.K, dns, v.PL.PartTargetNS), v.K)
-			}
-			if 85*v.PL.PartTargetNS > 100*(dns+5000) {
-				report("85-percent", fmt.Sprintf("after write %d a non-final part of %d ns is below 85%% of PART-TARGET %d ns", v.K, dns, v.PL.PartTargetNS), v.K)
-			}
-			if dns+5000 < pm {
-				report("below-part-min", fmt.Sprintf("after write %d a non-final part of %d ns is shorter than PartMinDuration %d ns", v.K, dns, pm), v.K)
-			}
-			// D < 2*max(pm, sd) + sd with sd = T/rate seconds, compared in units of 1/rate ns
-			sdn := c.T * 1000000000
-			mx := pm * c.Rate
-			if sdn > mx {
-				mx = sdn
-			}
-			if (dns-5000)*c.Rate >= 2*mx+sdn {
-				report("upper-bound", fmt.Sprintf("after write %d a non-final part of %d ns is not below 2*max(PartMinDuration, sample duration) + sample duration", v.K, dns), v.K)
-			}
+			prev = v
+			prevErrs = seq.ErrsAt[i]
 		}
-		if prev != nil && len(nf) > 0 && len(nonFinal(prev.PL)) > 0 {
-			if v.PL.PartTargetNS != prev.PL.PartTargetNS {
-				report("part-target-changed", fmt.Sprintf("PART-TARGET changed from %d ns (after write %d) to %d ns (after write %d), both playlists list a non-final part",
-					prev.PL.PartTargetNS, prev.K, v.PL.PartTargetNS, v.K), v.K)
-			} else if obs.errsAt[i] != prevErrs {
-				report("part-target-changed", fmt.Sprintf("OnEncodeError reported a part duration change between writes %d and %d, both playlists list a non-final part", prev.K, v.K), v.K)
-			}
-		}
-		prev = v
-		prevErrs = obs.errsAt[i]
 	}
 	// Where c19_side holds the theorems promise ONE sample count for every non-final part, so in
 	// media time (the sample durations of the served part files) every non-final part lasts
@@ -555,7 +597,6 @@ func (w *shardWriter) close() {
 	}
 }
 
-
 // ---------------------------------------------------------------- main
 
 func main() {
@@ -684,6 +725,18 @@ func main() {
 				PartMin: 234000000, SegMin: 1000000000, SegCount: 7, PMClass: "whole-ms"},
 			&muxCase{Kind: "aac", Rate: 88200, Constant: true, T: 1024, D0: 0, Deltas: rep(1024, 200), Flags: aflags(200),
 				PartMin: 70000000, SegMin: 1000000000, SegCount: 7, PMClass: "whole-ms"},
+			// 30 fps, PartMinDuration 500 ms, SegmentMinDuration 300 ms: three 10-frame GOPs (segments with
+			// only a 333 ms final part, PART-TARGET 0.334), then a long GOP: PART-TARGET changes to 0.5 at
+			// the close of the stream's first non-final part; alone, and with an AAC rendition declared
+			// before / after the video track
+			&muxCase{Kind: "h264", Rate: 90000, Constant: true, T: 3000, D0: 0, Deltas: rep(3000, 120), Flags: keysAt(120, 0, 10, 20, 30),
+				PartMin: 500000000, SegMin: 300000000, SegCount: 7, PMClass: "whole-ms", Shape: "late-first-non-final"},
+			&muxCase{Kind: "h264", Rate: 90000, Constant: true, T: 3000, D0: 0, Deltas: rep(3000, 120), Flags: keysAt(120, 0, 10, 20, 30),
+				PartMin: 500000000, SegMin: 300000000, SegCount: 7, PMClass: "whole-ms", Shape: "late-first-non-final",
+				Audio2: true, AudioFirst: true, A2Rate: 48000, A2Batch: 1},
+			&muxCase{Kind: "av1", Rate: 90000, Constant: true, T: 3000, D0: 90000, Deltas: rep(3000, 120), Flags: keysAt(120, 0, 10, 20, 30),
+				PartMin: 500000000, SegMin: 300000000, SegCount: 8, PMClass: "whole-ms", Shape: "late-first-non-final",
+				Audio2: true, AudioFirst: false, A2Rate: 44100, A2Batch: 3},
 			// several access units per WriteMPEG4Audio call, parts of an odd number of units
 			// (48 kHz / 100 ms: 5 units; 44.1 kHz / 100 ms: 5; 22.05 kHz / 200 ms: 5; 88.2 kHz / 80 ms: 7)
 			&muxCase{Kind: "aac", Rate: 48000, Constant: true, T: 1024, D0: 0, Deltas: rep(1024, 240), Flags: aflags(240),
@@ -790,7 +843,7 @@ func main() {
 		h := sha256.Sum256(input)
 		hs := hex.EncodeToString(h[:8])
 		nfMax := 0
-		for _, v := range obs.playlists {
+		for _, v := range obs.streams[0].Views {
 			if n := len(nonFinal(v.PL)); n > nfMax {
 				nfMax = n
 			}
@@ -813,6 +866,26 @@ func main() {
 				}
 			}
 			dist[fmt.Sprintf("aac_led:max_access_units_per_call:%d", mx)]++
+		}
+		if c.Audio2 {
+			if c.AudioFirst {
+				dist["video_led:track_order:audio-first"]++
+			} else {
+				dist["video_led:track_order:video-first"]++
+			}
+		}
+		if c.Shape != "" {
+			dist["history:"+c.Shape]++
+		}
+		if len(obs.streams) > 1 {
+			dist["runs_with_rendition_playlists_checked"]++
+		}
+		for _, q := range obs.streams {
+			for _, b := range q.InCallback {
+				if b {
+					dist["playlists_served_inside_OnEncodeError"]++
+				}
+			}
 		}
 		if c.Audio2 && c.A2Batch > 1 {
 			dist["video_led:non_leading_aac_multi_au_calls"]++
@@ -857,7 +930,7 @@ func main() {
 		"evaluations":         evaluations,
 		"distinct_nontrivial": nontrivial,
 		"rule": "muxer runs from splitmix64(seed, case index): leading H264/AV1 at 90 kHz (integer frame rates 1-120, 1001-based), AAC at 13 sample rates, Opus at 6 frame sizes; " +
-			"AAC-led runs write 1-5 access units per WriteMPEG4Audio call (fixed or random per call), video-led runs optionally feed a non-leading AAC track the same way; PartMinDuration whole ms / arbitrary ns / floor(n samples)+{0,1,2} ns in [50 ms, 2 s]; SegmentMinDuration, SegmentCount, first dts (incl. rejected negative prefix), GOP regular or random, parameter changes; " +
+			"video-led runs optionally carry an AAC rendition declared before or after the video track, the oracle reads every stream's playlist; every media playlist is also requested from inside OnEncodeError (bounded wait); 1 in 5 video histories starts with GOPs shorter than a part (PART-TARGET changes later at a part close); AAC-led runs write 1-5 access units per WriteMPEG4Audio call (fixed or random per call), video-led runs optionally feed a non-leading AAC track the same way; PartMinDuration whole ms / arbitrary ns / floor(n samples)+{0,1,2} ns in [50 ms, 2 s]; SegmentMinDuration, SegmentCount, first dts (incl. rejected negative prefix), GOP regular or random, parameter changes; " +
 			"distinct by SHA-256 of the input; non-trivial = >=2 completed segments AND some playlist listing >=3 non-final parts. Pure-function cases are counted in evaluations only.",
 		"samples":                       samples,
 		"distribution":                  dist,
